@@ -772,7 +772,7 @@ Fixpoint set_items_toks (vs : list setval) : list token :=
 Definition set_print_toks (vs : list setval) : list token := TLParen :: set_items_toks vs ++ [TRParen].
 
 (* parseSet: after the opening parenthesis every token with a literal text is recorded (INTEGER/NUMBER through
-   ParseFloat, the others verbatim); tokens without text - commas and SIGNS - are skipped; stops at ) *)
+   ParseFloat, the others verbatim); tokens without text - commas, SIGNS and the EMPTY STRING - are skipped; stops at ) *)
 Fixpoint parse_set_items (toks : list token) : option (list setval) :=
   match toks with
   | [] => None
@@ -783,7 +783,7 @@ Fixpoint parse_set_items (toks : list token) : option (list setval) :=
       | Some vs =>
           match t with
           | TInteger s | TNumber s => match parse_number s with Some (ip, fp) => Some (SNum false ip fp :: vs) | None => Some vs end
-          | TString s | TIdent s | TDuration s => Some (SStr s :: vs)
+          | TString s | TIdent s | TDuration s => match s with [] => Some vs | _ => Some (SStr s :: vs) end
           | _ => Some vs
           end
       end
@@ -795,4 +795,4 @@ Definition parse_set (toks : list token) : option (list setval) :=
   end.
 
 Definition setval_nonneg (v : setval) : bool :=
-  match v with SNum neg _ fp => negb neg && frac_ok fp | SStr _ => true end.
+  match v with SNum neg _ fp => negb neg && frac_ok fp | SStr s => match s with [] => false | _ => true end end.
